@@ -25,7 +25,7 @@ ASSUMPTIONS = ["edits keep the instruction text (mnemonic and operands) of every
 EDITS = ["label-add", "label-remove", "label-rename", "annot-remove", "annot-alter", "comment-remove", "comment-alter", "comment-add", "blank-add", "blank-remove",
          "section-add", "section-remove", "section-rename", "strip-all-blank", "strip-all-labels", "strip-all-sections", "format-remove", "format-alter", "format-add", "indent", "bytes-content", "bytes-length", "cont-add", "cont-remove", "bytes-column-remove"]
 FLOORS = {f"edit={e}": 0.012 for e in EDITS}
-FLOORS.update({"kinds>=2": 0.4, "edit=format-add": 0.004})
+FLOORS.update({"kinds>=2": 0.4, "edit=format-add": 0.001})
 NAMES = ["see file format notes", "main", "_start", "f@plt", ".text", "foo+0x10", "_ZN3foo3barEv", "foo(int)", "operator new(unsigned long)", "x", "L1", "data_16", "sym.with.dots", "null check:", "0x2000 <main>:", "note: see below", "Disassembly of section .text:"]
 INST = re.compile(r"^(\s*)([0-9a-f]+):\t((?:[0-9a-f]{2} )+)(\s*)\t(\S.*)$")
 
